@@ -101,14 +101,7 @@ theorem oneP_of_check {P : Program} (hc : onePB P = true)
     rcases h11 h (headsIn h hh) with h' | h'
     · rw [hh] at h'; cases h'
     · obtain ⟨⟨a1, a2⟩, a3⟩ := h' c hc'
-      refine ⟨a1, a2, ?_⟩
-      refine Graph.reachSet_mono (w := candView P c) ?_ a3
-      refine ⟨?_, rfl⟩
-      intro u hu
-      simp only [candView, filteredView, Bool.or_eq_true, Bool.not_eq_true', beq_iff_eq] at hu ⊢
-      rcases hu with hu | hu
-      · exact Or.inl hu
-      · exact Or.inr (by rw [hu]; exact hop)
+      exact ⟨a1, a2, a3⟩
 
 theorem SwP.noHeads {P : Program} (h : SwP P) : ¬ HasHeads P := by
   intro ⟨x, hx⟩; rw [h.noHead x] at hx; cases hx
@@ -528,9 +521,7 @@ theorem SInvX.nodeFinally {P : Program} {ex : Option Nat} {s : St} (h : SInvX P 
   simp only []
   split
   · exact (h.setEvent n).notify _
-  · split
-    · exact ((((h.setEvent n).notifyAll _).notify _).notify _)
-    · exact (((h.setEvent n).notifyAll _).notify _)
+  · exact ((((h.setEvent n).notifyAll _).notify _).notify _)
 
 theorem SInvX.unwindFrames {P : Program} {ex : Option Nat} (fs : List Frame) : ∀ {s : St}, SInvX P val ex s →
     SInvX P val ex (unwindFrames P s fs) := by
@@ -860,11 +851,8 @@ theorem badOrd_nodeFinally (P : Program) (s : St) (d : DagRef) (n : Node) (u : B
   simp only []
   split
   · rfl
-  · split
-    · show (notifyAll (setEvent s n) _).badOrd = s.badOrd
-      rw [badOrd_notifyAll]; rfl
-    · show (notifyAll (setEvent s n) _).badOrd = s.badOrd
-      rw [badOrd_notifyAll]; rfl
+  · show (notifyAll (setEvent s n) _).badOrd = s.badOrd
+    rw [badOrd_notifyAll]; rfl
 
 theorem grows_nodeFinally (P : Program) (s : St) (d : DagRef) (n : Node) (u : Bool) : Grows s (nodeFinally P s d n u) := by
   obtain ⟨h1, _, _, _, _, h6, _, _⟩ := nodeFinally_fields P s d n u
